@@ -10,7 +10,8 @@
       - every alignment > 0 (general.alignment, default 32), every maxArraySize,
       - files shorter than 2^63 bytes (Go's int64 offsets). *)
 From Coq Require Import List NArith ZArith Bool Permutation.
-From V Require Import Common.Bytes Gguf.Model Gguf.Arith Gguf.RoundTripKV Gguf.RoundTrip Gguf.Final.
+From Coq Require Import Sorting.Sorted.
+From V Require Import Common.Bytes Gguf.Model Gguf.Arith Gguf.RoundTripKV Gguf.RoundTrip Gguf.Final Gguf.Order Gguf.Tables Gguf.SeekerModel Gguf.Seeker.
 Import ListNotations.
 Open Scope N_scope.
 
@@ -70,3 +71,65 @@ Proof. exact hypotheses_satisfiable. Qed.
 Theorem C05_tensor_bytes_unrepaired_refuted : ~ C05_tensor_bytes_unrepaired_full.
 Proof. exact tensor_bytes_unrepaired_refuted. Qed.
 Print Assumptions C05_tensor_bytes_unrepaired_refuted.
+
+(** * the written order, for any number of tensors *)
+
+(** WriteGGUF's sort (modelled as the insertion sort Go runs on up to 20 elements) leaves a permutation sorted by the block
+    comparator - for ANY tensor count and ANY block function - whenever the comparator is a consistent order on the block numbers
+    present, i.e. unless negative (no block), zero and positive block numbers all occur ([consistent], Order.v).  A stable sort is
+    then determined by the comparator, so the result does not depend on the algorithm. *)
+Theorem C05_order_sorted : forall (block : tensor -> Z) (ts : list tensor),
+  consistent (map block ts) ->
+  Permutation ts (sort_ts block ts) /\ StronglySorted (fun a b => (cmp_block (block a) (block b) <= 0)%Z) (sort_ts block ts).
+Proof. exact order_sorted. Qed.
+Print Assumptions C05_order_sorted.
+
+(** the full statement - the comparator orders any block numbers - is false of the real comparator: a tensor without block
+    number sorts before blk.0, blk.0 before blk.1, and blk.1 before the tensor without block number (so with all three kinds
+    present "sorted" is not even well defined and the result depends on the sorting algorithm; the round-trip theorems above hold
+    for every order) *)
+Definition C05_comparator_transitive_full : Prop := comparator_transitive_full.   (* forall i j k, cmp i j <= 0 -> cmp j k <= 0 -> cmp i k <= 0 *)
+Theorem C05_comparator_transitive_refuted : ~ C05_comparator_transitive_full.
+Proof. exact comparator_not_transitive. Qed.
+Print Assumptions C05_comparator_transitive_refuted.
+Theorem C05_comparator_transitive_partial : forall bs i j k, consistent bs -> In i bs -> In j bs -> In k bs ->
+  (cmp_block i j <= 0 -> cmp_block j k <= 0 -> cmp_block i k <= 0)%Z.
+Proof. exact cmp_trans. Qed.
+Print Assumptions C05_comparator_transitive_partial.
+(** ... with real names and the Sscanf model of Tensor.block: token_embd.weight < blk.0.w < blk.1.w < token_embd.weight *)
+Example C05_real_names_cycle :
+  (cmp_block (block_of n_embd) (block_of n_blk0) < 0 /\ cmp_block (block_of n_blk0) (block_of n_blk1) < 0 /\
+   cmp_block (block_of n_blk1) (block_of n_embd) < 0)%Z.
+Proof. exact real_comparator_inconsistent. Qed.
+
+(** Tensor.block (the model of fmt.Sscanf(name, "blk.%d.", &n)): a name "blk." ++ decimal digits ++ "." ++ anything has the block
+    number its digits spell, when that fits an int64 *)
+Theorem C05_block_canonical : forall d rest,
+  d <> [] -> all_digits d -> (dec_value d < Z.of_N two63)%Z -> block_of (s_blk ++ d ++ 46 :: rest) = dec_value d.
+Proof. exact block_of_canonical. Qed.
+Print Assumptions C05_block_canonical.
+
+(** * fs/ggml/type.go and the size tables *)
+Theorem C05_file_type_roundtrip : forall t s, In (t, s) file_type_names -> parse_file_type s = Some t /\ file_type_name t = s.
+Proof. exact file_type_roundtrip. Qed.
+Print Assumptions C05_file_type_roundtrip.
+Theorem C05_file_type_unknown : forall t, 33 <= t -> file_type_name t = s_unknown_ft.
+Proof. exact file_type_name_unknown. Qed.
+Print Assumptions C05_file_type_unknown.
+Theorem C05_unknown_kind_size_zero : forall k shape, 31 <= k -> tensor_size k shape = 0.
+Proof. exact tensor_size_unknown. Qed.
+Print Assumptions C05_unknown_kind_size_zero.
+
+(** * fs/util/bufioutil/buffer_seeker.go: Seek on the buffered seeker (which compensates SeekCurrent for what bufio has
+    prefetched, in wrapping int64 arithmetic) is Seek on the logical position, whatever was prefetched; prefetching does not
+    move the logical position *)
+Theorem C05_buffered_seek_refines : forall data c off w,
+  let '(c', r) := c_seek data c off w in
+  let '(p', r') := abs_step data (c_abs c) (SSeek off w) in
+  r = r' /\ c_abs c' = p' /\ (c_inv data c -> c_inv data c').
+Proof. exact seek_refines. Qed.
+Print Assumptions C05_buffered_seek_refines.
+Theorem C05_prefetch_keeps_position : forall data c m,
+  c_inv data c -> c_abs (c_fill data c m) = c_abs c /\ c_inv data (c_fill data c m).
+Proof. exact fill_refines. Qed.
+Print Assumptions C05_prefetch_keeps_position.
